@@ -46,6 +46,8 @@ pub fn run(rep: &mut Report, tier: &str, seed: u64) {
             let source = gen_source(&mut r, ti == 1, false);
             let (info, mi) = export(&loaded.file, &source);
             drv.ask(&sexp::tagged("set-tree", vec![info.to_sexp(&source.src)]));
+            rep.count_n("regex-oracle-questions", table.rx_asked + table.rp_asked);
+            table = OracleTable::new();
             let globals = supply_globals(&mut r, &loaded.program);
             let mut results = Vec::new();
             for lazy in [false, true] {
